@@ -216,11 +216,20 @@ def main():
         n_inst = rng.choice([1, 2, 2, 3])
         qt = rng.choice(["classic", "quorum"])
         w = sim.World(tmpd, n_instances=n_inst, queue_type=qt)
-        g = cp.Gen(rng, fanout=True, max_depth=1)
-        definition = g.machine()
+        child, form = None, None
+        if run_no % 3 == 2:
+            # parents whose Task states launch a child machine, all in one form: fire-and-forget, .sync or .sync:2
+            import engine_group as eg
+            form = eg.LAUNCHES[(run_no // 3) % 3]
+            definition, child = eg.children_machines(rng, forms=[form])
+            w.register(eg.CHILD_ARN, child)
+        else:
+            g = cp.Gen(rng, fanout=True, max_depth=1)
+            definition = g.machine()
         w.register(cp.ARN, definition)
         for inst in w.instances.values():
-            inst.engine.asl_store[cp.ARN] = json.loads(json.dumps(dict(w.instances["i1"].engine.asl_store[cp.ARN])))
+            for a in [cp.ARN] + ([eg.CHILD_ARN] if child is not None else []):
+                inst.engine.asl_store[a] = json.loads(json.dumps(dict(w.instances["i1"].engine.asl_store[a])))
         k = rng.randrange(2, 6)
         for j in range(k):
             w.start_execution(cp.ARN, json.loads(json.dumps(cp.INPUT)), name="x%d" % j)
@@ -233,15 +242,31 @@ def main():
             owners = sorted(c.instance for c in cons)
             if name.startswith("asl_workflow_events-") and name != shared and len(owners) != 1:
                 ck.violation("a per-instance event queue has %d consumers: %s %r" % (len(owners), name, owners), {"queue": name, "consumers": owners})
+        if child is not None:
+            # the start event of a child: to the shared queue when nobody waits for it, to the launching instance's own queue when its Task does
+            for t in w.trace:
+                if t[0] == "publish" and t[3] == "event" and isinstance(t[5], dict):
+                    ctx = t[5].get("context") or {}
+                    xa = (ctx.get("Execution") or {}).get("Id") or ""
+                    if ":campchild:" in xa and not (ctx.get("State") or {}).get("Name"):
+                        want = shared if form == eg.LAUNCHES[0] else shared + "-" + t[1]
+                        if t[2] != want:
+                            ck.violation("the start event of a child execution launched with %s was published to %s instead of %s: %s"
+                                         % (form, t[2], want, json.dumps({"instances": n_inst, "queue_type": qt, "definition": definition, "child_definition": child})[:900]),
+                                         {"case": {"instances": n_inst, "queue_type": qt, "definition": definition, "child_definition": child, "form": form, "published_to": t[2], "by": t[1]}})
+                            break
         dels, reqs, reps = [], [], []
         xid = {}
         msg_x = {}
+        child_start = set()
         inum = {iid: n for n, iid in enumerate(sorted(w.instances))}
         req_sender = {}
         for t in w.trace:
             if t[0] == "publish" and t[3] == "event":
                 xa = ((t[5].get("context") or {}).get("Execution") or {}).get("Id")
                 msg_x[t[4]] = xa
+                if xa and not ((t[5].get("context") or {}).get("State") or {}).get("Name"):
+                    child_start.add(t[4])        # the start event of an execution that a Task launched
             if t[0] == "rpc":
                 req_sender[t[3]] = (t[1], t[5])          # sending instance, reply-to queue
         starts_body = {}
@@ -249,9 +274,9 @@ def main():
             if t[0] == "deliver":
                 inst, q, mid_, redel = t[1], t[2], t[3], t[4]
                 if str(q).startswith("asl_workflow_events"):
-                    is_start = q == shared
+                    is_start = q == shared or mid_ in child_start
                     xa = msg_x.get(mid_)
-                    if is_start or xa is None:
+                    if q == shared and mid_ not in child_start or xa is None:
                         # a start event: which execution it became is visible in the next RUNNING notification of that instance
                         xa = None
                     dels.append([mid_, inum[inst], is_start, xa])
